@@ -6,8 +6,7 @@ pub mod element_parser_fns {
 use super::*;
 use crate::tokenizer;
 pub use crate::element_parser::*;
-/// the tag name element_parser::parse yields for a token (None: not a well-formed tag)
-pub uninterp spec fn ep_name<'a, 'b, 'c>(t: tokenizer::Token<'a, 'b, 'c>) -> Option<Seq<char>>;
+use crate::parser_impl::ep_name;
 //@fn id=element_parse_pure file=element_parser.rs name=parse props=C10 stub=only trusted="assumed: element_parser::parse is a pure function of the token value (safe code, no interior mutability, no globals): whether it returns Some, and the name it returns, are functions ep_name of *token"
 //@ret r
 //@ensures label=element_parse_is_a_function_of_the_token
@@ -25,51 +24,6 @@ use crate::parser::*;
 
 //@include parser_vocab.vs
 //@include stack_vocab.vs
-pub type Tok<'a, 'b, 'c> = tokenizer::Token<'a, 'b, 'c>;
-/// tag name of a token: element tokens that element_parser accepts
-pub open spec fn tok_nm<'a, 'b, 'c>() -> spec_fn(Tok<'a, 'b, 'c>) -> Option<Seq<char>> {
-    |t: Tok<'a, 'b, 'c>| if t.kind is Element { crate::element_parser_fns::ep_name(t) } else { None }
-}
-/// the parse tree as a tree of token values
-pub open spec fn gp<'a, 'b, 'c, 'd>(parts: Seq<ContentPart<'a, 'b, 'c, 'd>>) -> Seq<GP<Tok<'a, 'b, 'c>>>
-    decreases parts,
-{
-    if parts.len() == 0 { Seq::empty() } else {
-        gp(parts.drop_last()).push(match parts.last() {
-            ContentPart::Text(t) => GP::Txt(*t.token),
-            ContentPart::Element(el) => GP::El(*el.start_token, *el.end_token, gp(el.children@)),
-        })
-    }
-}
-pub proof fn lemma_gp_add<'a, 'b, 'c, 'd>(a: Seq<ContentPart<'a, 'b, 'c, 'd>>, b: Seq<ContentPart<'a, 'b, 'c, 'd>>)
-    ensures gp(a + b) == gp(a) + gp(b),
-    decreases b.len(),
-{
-    if b.len() == 0 {
-        assert(a + b =~= a);
-        assert(gp(a) + gp(b) =~= gp(a));
-    } else {
-        assert((a + b).drop_last() =~= a + b.drop_last());
-        assert((a + b).last() == b.last());
-        lemma_gp_add(a, b.drop_last());
-        assert(gp(a + b) =~= gp(a) + gp(b));
-    }
-}
-pub proof fn lemma_gp_one<'a, 'b, 'c, 'd>(s: Seq<ContentPart<'a, 'b, 'c, 'd>>, c: ContentPart<'a, 'b, 'c, 'd>)
-    requires s.len() == 1, s[0] == c,
-    ensures gp(s) == seq![match c {
-        ContentPart::Text(t) => GP::Txt(*t.token),
-        ContentPart::Element(el) => GP::El(*el.start_token, *el.end_token, gp(el.children@)),
-    }],
-{
-    assert(s.drop_last() =~= Seq::<ContentPart<'a, 'b, 'c, 'd>>::empty());
-    assert(s.last() == c);
-    assert(gp(s.drop_last()) =~= Seq::<GP<Tok<'a, 'b, 'c>>>::empty());
-    assert(gp(s) =~= seq![match c {
-        ContentPart::Text(t) => GP::Txt(*t.token),
-        ContentPart::Element(el) => GP::El(*el.start_token, *el.end_token, gp(el.children@)),
-    }]);
-}
 pub open spec fn pnames(parents: Seq<&element_parser::Element>) -> Seq<Seq<char>> {
     Seq::new(parents.len(), |i: int| parents[i].name@)
 }
